@@ -207,6 +207,17 @@ def run_random(spec, ctx):
             if rng.random() < 0.15:
                 k = np.float64(k)
             s = S([list(base[0]), list(base[1])])
+            _, ds = gen.dataset(rng, classes="D2 D3 D4 D7", nmax=6, mmax=4)
+            ds = libx.normalise_raw(ds)
+            _, cand = gen.candidate(rng, ds, "random")
+            d, c = libx.mk_dataset(ds), libx.mk_ranking(cand)
+            used_first = rng.random() < 0.5
+            if used_first:
+                # the scheme has already served (scores, a cost table, its nickname) when it is multiplied
+                call(ck.KemenyComputingFactory(s).get_kemeny_score, c, d)
+                call(ck.CopelandMethod().compute_consensus_rankings, d, s, True)
+                call(s.get_nickname)
+                ctx.count("scalings_of_schemes_already_used")
             snapshot = [list(s.penalty_vectors[0]), list(s.penalty_vectors[1])]
             left = rng.random() < 0.5
             st, t = call((lambda: k * s) if left else (lambda: s * k))
@@ -228,10 +239,6 @@ def run_random(spec, ctx):
                               observed=got, expected=want)
                 continue
             # homogeneity of the Kemeny score on a random dataset / candidate
-            _, ds = gen.dataset(rng, classes="D2 D3 D4 D7", nmax=6, mmax=4)
-            ds = libx.normalise_raw(ds)
-            _, cand = gen.candidate(rng, ds, "random")
-            d, c = libx.mk_dataset(ds), libx.mk_ranking(cand)
             st1, a = call(ck.KemenyComputingFactory(s).get_kemeny_score, c, d)
             st2, b = call(ck.KemenyComputingFactory(t).get_kemeny_score, c, d)
             if st1 == "ok" and st2 == "ok":
@@ -431,6 +438,7 @@ def reach(counters, tier, info):
         out.append({"name": f"tuples violating exactly the rule {rule}", "observed": c, "required": 100,
                     "ok": c >= 100})
     for name, key, need in [("malformed inputs", "malformed", 400 * k), ("scalings", "scalings", 800 * k),
+                            ("scalings of schemes that had already been used", "scalings_of_schemes_already_used", 300 * k),
                             ("scalings by 2^-40 .. 2^-30 or 2^20", "scalings_by_tiny_or_huge_factors", 150 * k),
                             ("score homogeneity checks", "homogeneity_checked", 500 * k),
                             ("equivalence pairs", "equiv_pairs", 1500 * k), ("nicknames", "nicknames", 1500 * k)]:
